@@ -367,10 +367,10 @@ impl MqttShared {
                 }
 
                 // wake up queued request (receive max limit)
-                while let Some(tx) = queues.waiters.pop_front() {
-                    if tx.send(()).is_ok() {
-                        break;
-                    }
+                // every waiter checks readiness again; a single woken waiter
+                // could be a `ready()` call or could be dropped before it runs
+                for tx in queues.waiters.drain(..) {
+                    let _ = tx.send(());
                 }
                 Ok(())
             } else {
@@ -388,10 +388,10 @@ impl MqttShared {
                     }
 
                     // wake up queued request (receive max limit)
-                    while let Some(tx) = queues.waiters.pop_front() {
-                        if tx.send(()).is_ok() {
-                            break;
-                        }
+                    // every waiter checks readiness again; a single woken waiter
+                    // could be a `ready()` call or could be dropped before it runs
+                    for tx in queues.waiters.drain(..) {
+                        let _ = tx.send(());
                     }
                     Ok(())
                 } else {
